@@ -147,7 +147,8 @@ def cov_fuzz_jobs(module: str, jobs: List[Dict[str, Any]], instrument: List[str]
                                    "nontrivial": len(child_rep.nontrivial), "wall_s": round(res["wall_s"], 2),
                                    "setup_s": round(res["setup_s"], 2),
                                    "exec_per_s": round(res["calls"] / max(res["wall_s"], 1e-6), 1),
-                                   "stopped": res["stopped"]})
+                                   "stopped": res["stopped"],
+                                   "violation_class_first_seen_at_call": res.get("first_seen", {})})
             summ["calls"] += res["calls"]
             summ["cases_executed"] += res["executed"]
             summ["rejected_by_hypothesis"] += res["calls"] - res["executed"]
